@@ -49,6 +49,7 @@ type storeRec struct {
 
 // VC accumulates the verification condition of one top-level function.
 type VC struct {
+	closedAllocs []*State // states just before own allocations (option heap-closedness)
 	noRebase  bool
 	nameWraps bool
 	binderTyping bool
@@ -363,6 +364,18 @@ func (vc *VC) heap(st *State, name, sort string) string {
 				vc.assert(implies(vc.ownRefReach[i], eq(sel(n, r), z)))
 			}
 		}
+		// a reference heap first mentioned after some own allocations was untouched until now: the closedness facts of
+		// those allocation points (option heap-closedness, see newRef) hold for its entry version
+		if isRefHeap(name) && vc.closedness {
+			for _, cs := range vc.closedAllocs {
+				switch sort {
+				case "(Array Int Int)":
+					vc.allocAxiom(cs, n, false, "Int")
+				case "(Array Int (Array Int Int))":
+					vc.allocAxiom(cs, n, true, "Int")
+				}
+			}
+		}
 		// heap closedness: every reference stored in the entry heap is below the entry allocation pointer
 		if isRefHeap(name) {
 			a0 := vc.heap(&State{heaps: map[string]string{}}, "$alloc", "Int")
@@ -387,6 +400,28 @@ func (vc *VC) allocOf(st *State) string { return vc.heap(st, "$alloc", "Int") }
 // newRef allocates a fresh reference.
 func (vc *VC) newRef(st *State) string {
 	a := vc.allocOf(st)
+	if vc.closedness {
+		// `option heap-closedness`: nothing stored anywhere points at the object about to be allocated (every reference
+		// in every heap is below the allocation pointer of the state before the allocation). This is what makes a new
+		// object provably distinct from everything reachable through quantified reads (s[j] for a bound j).
+		var names []string
+		for name := range vc.heapSorts {
+			names = append(names, name)
+		}
+		sort.Strings(names)
+		vc.closedAllocs = append(vc.closedAllocs, st.clone())
+		for _, name := range names {
+			if !isRefHeap(name) {
+				continue
+			}
+			switch vc.heapSorts[name] {
+			case "(Array Int Int)":
+				vc.allocAxiom(st, vc.heap(st, name, vc.heapSorts[name]), false, "Int")
+			case "(Array Int (Array Int Int))":
+				vc.allocAxiom(st, vc.heap(st, name, vc.heapSorts[name]), true, "Int")
+			}
+		}
+	}
 	r := vc.define("ref", "Int", a)
 	st.heaps["$alloc"] = vc.define("alloc", "Int", plus(a, "1"))
 	vc.freshRefs[r] = true
@@ -506,10 +541,10 @@ func (vc *VC) allocAxiom(st *State, h string, twoLevel bool, keySort string) {
 	if !vc.closedness {
 		return // enabled per function with `option heap-closedness`
 	}
-	if strings.HasSuffix(h, "@0|") {
+	a := vc.allocOf(st)
+	if strings.HasSuffix(h, "@0|") && strings.HasSuffix(a, "@0|") {
 		return // the entry version already carries the closedness axiom w.r.t. the entry allocation pointer
 	}
-	a := vc.allocOf(st)
 	key := "allocax|" + h + "|" + a
 	if vc.declared[key] {
 		return
